@@ -105,6 +105,8 @@ def call_graph(ck: Check) -> Dict[str, Set[str]]:
         return cached
     callers: Dict[str, Set[str]] = {}
     for fi in ck.repo.all_functions():
+        if ck.walker.transparent(fi.qualname):
+            continue     # a helper extracted later is part of its callers (its calls appear, inlined, in their summaries)
         try:
             s = ck.walker.summary(fi.qualname, 0)
         except Exception:
